@@ -54,10 +54,11 @@ def job(args):
     repo, kind, seq = args
     warnings.filterwarnings("ignore")
     with contextlib.redirect_stdout(io.StringIO()):
-        from hypnotoad.core.mesh import BoutMesh  # noqa
-
-        sys.path.insert(0, repo)
+        sys.path.insert(0, repo)  # BEFORE the first import of hypnotoad: the tree under test, not the installed one
         from hypnotoad.core.mesh import BoutMesh
+        import hypnotoad
+
+        assert os.path.realpath(os.path.dirname(os.path.dirname(hypnotoad.__file__))) == os.path.realpath(repo), "hypnotoad imported from %s, not from %s" % (hypnotoad.__file__, repo)
 
         eq, settings = make_eq(repo, SETTINGS[seq[0]])
         mesh = BoutMesh(eq, settings)
@@ -101,6 +102,14 @@ def run(repo, tier):
             bad.append(dict(sequence="->".join(s), problem="settings other than nonorthogonal_* changed"))
         if got["nonorth"] != ref["nonorth"]:
             bad.append(dict(sequence="->".join(s), problem="equilibrium's non-orthogonal options differ from those of a fresh build with the final settings"))
+    # vacuity guard: the settings must give grids that differ, or "returning to earlier settings" tests nothing
+    singles = [s for s in seqs if len(s) == 1]
+    for i, a in enumerate(singles):
+        for b in singles[i + 1 :]:
+            dmax = max(float(np.abs(by[a]["pos"][k] - by[b]["pos"][k]).max()) for k in by[a]["pos"])
+            rows.append(dict(sequence="%s vs %s (fresh builds)" % (a, b), max_position_difference=dmax, note="settings must differ visibly"))
+            if dmax < 1e-3:
+                bad.append(dict(sequence="%s vs %s" % (a, b), problem="harness vacuous: two different settings give the same grid (%.2g)" % dmax))
     return dict(rows=rows, bad=bad, n=len(seqs))
 
 
